@@ -214,6 +214,18 @@ def handleFound (j : Json) : Json :=
       Json.arr #[Json.str (String.ofList h.sub), (match h.date with | some n => Json.num n | none => Json.null), Json.num h.ci, Json.num h.pj])).toArray)]
   | .error e => errJson e
 
+/-- the `Dictionary` class cache (`DPModel/DP/Shared.lean`): a history of accesses `[settings key, locale]` with per-key CACHE_SIZE_LIMIT;
+    answers what each access returned and the key order of the cache after it -/
+def handleDcache (j : Json) : Json :=
+  let pairs := fun (x : Json) => (jarr x).filterMap (fun p => match jarr p with | [a, b] => (do pure ((← a.getNat?.toOption), (← b.getNat?.toOption))) | _ => none)
+  let lims := pairs (jget j "limits")
+  let limit : Nat → Nat := fun k => ((lims.find? (fun p => p.1 == k)).map (·.2)).getD 0
+  let step := fun (acc : Shared.Cache × List Json) (kl : Nat × Nat) =>
+    let r := Shared.getCached limit acc.1 kl.1 kl.2
+    let o := match r.2 with | .val v => Json.arr #[Json.num (v.1 : Nat), Json.num (v.2 : Nat)] | .keyError => Json.str "KeyError"
+    (r.1, acc.2 ++ [Json.mkObj [("out", o), ("order", Json.arr (r.1.order.map (fun (k : Nat) => Json.num (k : Nat))).toArray)]])
+  Json.mkObj [("steps", Json.arr ((pairs (jget j "ops")).foldl step (Shared.Cache.empty, [])).2.toArray)]
+
 def handle (env : Env) (cache : IO.Ref Cache) (line : String) : IO String := do
   match Json.parse line with
   | .error e => return Json.compress (Json.mkObj [("bad", "json:" ++ e)])
@@ -234,6 +246,7 @@ def handle (env : Env) (cache : IO.Ref Cache) (line : String) : IO String := do
       | "align" => pure (handleAlign j)
       | "tsent" => pure (handleTsent j)
       | "found" => pure (handleFound j)
+      | "dcache" => pure (handleDcache j)
       | "sanitize" => pure (Json.mkObj [("r", sanitizeDate (jstr j "s"))])
       | "poptz" => pure (let r := popTz env.T (jstr j "s"); Json.mkObj [("r", r.1), ("tz", match r.2 with | some (n, o) => Json.mkObj [("name", n), ("off", Json.num o)] | none => Json.null)])
       | _ => pure (Json.mkObj [("bad", "op")])
